@@ -19,7 +19,7 @@ from mc.ref import xsd as R
 
 SIGMA_CAP = {'quick': 3, 'thorough': 4}
 DEPTH = {'quick': 2, 'thorough': 2}
-PROBES = ['', ' ', 'a', 'yes', 'no', 0, 1, -1, 1.5, 100, 17, '#000000', '2000-01-01', 'C', 'quarter', 'also-bottom', 'up',
+PROBES = ['', ' ', 'a', 'yes', 'no', 0, 1, 1.0, 2, 2.0, -1, 1.5, 100, 100.0, 17, '#000000', '2000-01-01', 'C', 'quarter', 'also-bottom', 'up',
           'start', 'normal', 'accSharp']
 
 
@@ -29,10 +29,15 @@ def ops_small(T, tier):
 
 
 def run_merged(TA, nameA, TB, nameB, hA, hB, shape):
-    """drive live A and B in one process; returns State of A"""
+    """drive live A and B in one process; returns State of A.  shape 'toggled': B is constructed with xsd_check=False
+    and switched to checked through the public setter before its history runs (B before A)"""
     a = impl.State(impl.fresh(TA, el_name=nameA))
-    b = impl.State(impl.fresh(TB, el_name=nameB))
-    if shape == 'before':
+    if shape == 'toggled':
+        b = impl.State(impl.fresh(TB, check=False, el_name=nameB))
+        b.el.xsd_check = True
+    else:
+        b = impl.State(impl.fresh(TB, el_name=nameB))
+    if shape in ('before', 'toggled'):
         seq = [('b', o) for o in hB] + [('a', o) for o in hA]
     elif shape == 'after':
         seq = [('a', o) for o in hA] + [('b', o) for o in hB]
@@ -59,7 +64,7 @@ def work_pairs(arg):
         solo[hA] = impl.G(sa)
     for hA in itertools.product(opsA, repeat=d):
         for hB in itertools.product(opsB, repeat=d):
-            for shape in ('before', 'inside', 'after'):
+            for shape in ('before', 'inside', 'after', 'toggled'):
                 oc['interleavings'] += 1
                 a = run_merged(TA, nameA, TB, nameB, hA, hB, shape)
                 if impl.G(a) == solo[hA]:
@@ -202,6 +207,7 @@ def run(tier):
     with ctx.Pool(core.nworkers(), maxtasksperchild=1) as pool:
         pristine = dict(pool.map(pristine_class, names, chunksize=1))
         pf = pool.map(pristine_fresh, [0], chunksize=1)[0]
+    r1 = explore.r1_prepare()   # after the pristine references were taken (runs in forked workers)
     pairs = pair_list()
     chunks = [pairs[i::core.nworkers() * 2] for i in range(core.nworkers() * 2)]
     with ctx.Pool(core.nworkers()) as pool:
@@ -246,7 +252,7 @@ def run(tier):
            'verdicts_compared_with_pristine': ncmp, 'distinct_verdict_tables': distinct,
            'samples': [{'A': 'pitch', 'hA': [['A', 'step'], ['S', True]], 'B': 'pitch', 'hB': [['A', 'octave'], ['R', 0]],
                         'shape': 'inside'}, {'class': 'swing-type', 'value': 'quarter', 'order': 'reverse'}],
-           'exhaustive': True,
+           'exhaustive': True, 'r1_check': r1,
            'rule': 'all pairs of depth-%d histories over capped alphabets x 3 merge shapes for %d instance pairs; verdict '
                    'tables of all 441 classes (text x all enumeration literals + probes; attributes x related values) '
                    'in sorted order, reverse order and after workloads vs one pristine process per class'
